@@ -131,6 +131,9 @@ class Snapshot:
             d[n] = self.copy_value(v, depth)
 
 
+MODEL_CLASSES = {}     # ghost/model classes (TimerHandle, EventLoop, ...) -> their concrete counterparts
+
+
 class Evaluator:
     def __init__(self, spec_funcs, modules=('zeroconf._dns', 'zeroconf._cache', 'zeroconf')):
         self.spec_funcs = spec_funcs
@@ -156,6 +159,8 @@ class Evaluator:
                 if isinstance(v, type):
                     self.classes[name] = v
                     return v
+        if name in MODEL_CLASSES:
+            return MODEL_CLASSES[name]
         raise SpecError('unknown class ' + name)
 
     # ------------------------------------------------------------------------------------------
@@ -384,8 +389,15 @@ class Evaluator:
                 return True
             if name == 'uf':
                 return self.ghost_funcs[vals[0]](*vals[1:])
-            if name == 'allocated' or name == 'fresh_obj':
-                return True
+            if name in ('allocated', 'fresh_obj'):
+                # an object existed in the pre-state iff the snapshot (everything reachable from the inputs) saw it
+                v = self.ev(a[0], env, snap, old)
+                if snap is None or v is None or isinstance(v, (int, float, str, bytes, bool)):
+                    return True
+                was = id(v) in snap.attrs or id(v) in snap.conts
+                if name == 'fresh_obj':
+                    return not was
+                return was if old else True
             if name == 'some':
                 return vals[0]
             if name == 'nothing':
